@@ -42,6 +42,7 @@ func main() {
 	family := fs.String("family", "", "c18: scenario family")
 	nkeys := fs.Int("nkeys", 0, "key list size (0 = seed-chosen from 1,3,100)")
 	cipher := fs.String("cipher", "", "force one cipher for all keys")
+	baseIdx := fs.Int("base-idx", 0, "index of the first behaviour (seeds the per-behaviour randomness; used to re-run one behaviour)")
 	fs.Parse(os.Args[2:])
 
 	switch mode {
@@ -68,7 +69,11 @@ func main() {
 			go func(i int) {
 				defer wg.Done()
 				defer func() { <-sem }()
-				c, b := runBehaviour(i, behs[i], opt)
+				c, b := runBehaviour(i+*baseIdx, behs[i], opt)
+				for _, cr := range c {
+					cr.Beh = i
+				}
+				b.Beh = i
 				results[i] = res{c, b}
 			}(i)
 		}
